@@ -80,8 +80,8 @@ DEFAULT_MEM = 100 * 1024
 
 NAMES = ['a', 'a b', 'a;b', 'a=b', '\u00e9', 'c:\\x', 'x;y=z.txt', 'a; filename=b', ' a ', 'a\\', '\U0001d11e\u20ac',
          "a'b", 'name', 'filename', 'a;', '=;=']
-TEXTS = ['', 'v', '\u00fc\u20ac', 'l1\r\nl2', '\r\n--BN', '--', ' x ', '\r', '\n', 'a\r\n', '\r\n']
-CTYPES = [None, 'text/plain', 'text/plain; charset=utf-8']
+TEXTS = ['', 'v', '\u00fc\u20ac', 'l1\r\nl2', '\r\n--BN', '--', ' x ', '\r', '\n', 'a\r\n', '\r\n', '\ufeffid,name', '\ufeff']
+CTYPES = [None, 'text/plain', 'text/plain; charset=utf-8', 'Image/PNG']
 BOUNDARIES = ['X', 'BND', '--a-', "Ab'+_.-9", 'b' * 35 + 'Z' * 35]
 
 # framing: (kind, pieces, script, tail).  kind 'cl': Content-Length, reads answer per script/tail.
@@ -283,7 +283,7 @@ def _gen_main(tier, seed):
         for v in TEXTS:
             singles.append(('text', name, v))
         for fn in NAMES:
-            singles.append(('file', name, fn, CTYPES[(len(singles)) % 3], b'data'))
+            singles.append(('file', name, fn, CTYPES[(len(singles)) % len(CTYPES)], b'data'))
         for ct in CTYPES:
             singles.append(('file', name, 'up.bin', ct, b'\r\n-\x00'))
     for f in singles:
